@@ -39,6 +39,9 @@ pub enum BEv {
     CloneStack(Option<usize>),
     /// the host registers a symbol name at run time (after the retention point): parse_add_symbol
     HostSymbol(String),
+    /// retain_all_current_data at this point: everything allocated so far — values the host holds, results,
+    /// and, in the middle of a run, the stack entries themselves — becomes part of the retained prefix
+    RetainAll,
 }
 
 #[derive(Clone, Debug, Serialize, Deserialize)]
@@ -181,6 +184,8 @@ impl Campaign for C19 {
         let nb = rng.range(4, 120);
         let every = rng.range(2, 7);
         let q = *rng.pick(&[1u32, 6, 20]);
+        // a fifth of the runs move the retention point while the program is in flight
+        let retain_midway = rng.chance(1, 5);
         let mut boundaries = vec![];
         for k in 0..nb {
             let mut evs = vec![];
@@ -199,6 +204,9 @@ impl Campaign for C19 {
             }
             if rng.chance(1, 12) {
                 evs.push(BEv::HostSymbol(format!("hs{}", rng.below(40))));
+            }
+            if retain_midway && rng.chance(1, 25) {
+                evs.push(BEv::RetainAll);
             }
             let opt = match cadence {
                 0 => false,
@@ -227,7 +235,8 @@ impl Campaign for C19 {
         let mut pre = vec![];
         if rng.chance(1, 3) {
             for _ in 0..rng.range(1, 4) {
-                match rng.below(5) {
+                match rng.below(6) {
+                    5 => pre.push(BEv::RetainAll),
                     0 => pre.push(BEv::HostAdd(random_value(rng, 2))),
                     1 => pre.push(BEv::HostSymbol(format!("hs{}", rng.below(40)))),
                     2 => pre.push(BEv::Optimize(vec![RootSel::Retained(rng.below(40)), RootSel::Retained(rng.below(40))])),
@@ -347,6 +356,32 @@ impl Campaign for C19 {
             ]],
             tail_every: 0,
             max_steps: 100,
+        },
+        // D20 (fixed): the retention point moved after the input was pushed; the result is written at the end
+        Sc19 {
+            knobs: Knobs::default(),
+            programs: vec!["1, 1, 1".to_string()],
+            retained: 1,
+            run_program: 0,
+            input: Val::Unit,
+            script: HostScript::default(),
+            pre: vec![],
+            boundaries: { let mut b = vec![vec![]; 26]; b[0] = vec![BEv::RetainAll]; b[25] = vec![BEv::Optimize(vec![])]; b },
+            tail_every: 0,
+            max_steps: 100,
+        },
+        // D20: a reapply loop running across a retention point, compacted afterwards
+        Sc19 {
+            knobs: Knobs::default(),
+            programs: vec!["{ $ < 6 ?> ^~ ($ + 1) |> $ } <~ 1".to_string()],
+            retained: 1,
+            run_program: 0,
+            input: Val::Unit,
+            script: HostScript::default(),
+            pre: vec![],
+            boundaries: { let mut b = vec![vec![]; 40]; b[9] = vec![BEv::RetainAll]; b[20] = vec![BEv::Optimize(vec![])]; b[30] = vec![BEv::Optimize(vec![RootSel::CurrentValue])]; b },
+            tail_every: 0,
+            max_steps: 200,
         }]
     }
 
@@ -360,6 +395,7 @@ impl Campaign for C19 {
                     BEv::HostAdd(_) => " host_add",
                     BEv::HostShare(_) => " host_share",
                     BEv::HostSymbol(_) => " host_symbol",
+                    BEv::RetainAll => " retain_all",
                 });
             }
         }
@@ -571,6 +607,14 @@ pub fn execute(sc: &Sc19) -> Outcome {
                             out.count("f1_store_full_fired", 1);
                             break 'run;
                         }
+                    }
+                }
+                BEv::RetainAll => {
+                    sh.str("retain");
+                    a.retain_all_current_data();
+                    out.count("retention_point_moved", 1);
+                    if started && !ended {
+                        out.probe("retention-point-moved-while-program-in-flight");
                     }
                 }
                 BEv::HostShare(sels) => {
